@@ -114,6 +114,11 @@ type c16Tr struct {
 	hasCopy bool              // deepCopy has been generated (callable)
 	callee  string            // the function whose result initialises the accumulator (runner.extractOption: extractOption)
 	ctxArg  string
+	// inside the body of a statement helper that is being inlined (inlineStmtHelper): the continuation that stands for
+	// "the helper returns without an error", whether the helper returns an error, and the depth of the helper's own loops
+	helperRet  string
+	helperErr  bool
+	helperLoop int
 }
 
 func (t *c16Tr) clone() *c16Tr {
@@ -367,18 +372,20 @@ func (t *c16Tr) atom(root *c16Root, e ast.Expr) (c16Expr, error) {
 // body is anything else, or whose expression is outside the fragment, leaves the source shape unrecognised.
 
 var c16Repo string
-var c16Preds map[string]*ast.FuncDecl
+var c16Funcs map[string]*ast.FuncDecl
 var c16PredDepth int
 
 func c16SetRepo(repo string) {
 	if repo != c16Repo {
-		c16Repo, c16Preds = repo, nil
+		c16Repo, c16Funcs = repo, nil
 	}
 }
 
-func c16FindPred(name string) *ast.FuncDecl {
-	if c16Preds == nil {
-		c16Preds = map[string]*ast.FuncDecl{}
+// c16LoadFuncs: the top-level functions of package compose (not the tests), by name; a name declared in several files
+// (build tags) is left out
+func c16LoadFuncs() map[string]*ast.FuncDecl {
+	if c16Funcs == nil {
+		c16Funcs = map[string]*ast.FuncDecl{}
 		files, _ := filepath.Glob(filepath.Join(c16Repo, "compose", "*.go"))
 		sort.Strings(files)
 		fset := token.NewFileSet()
@@ -397,22 +404,125 @@ func c16FindPred(name string) *ast.FuncDecl {
 					continue
 				}
 				seen[fn.Name.Name]++
-				if fn.Body == nil || fn.Type.TypeParams != nil || fn.Type.Results == nil || len(fn.Type.Results.List) != 1 ||
-					len(fn.Type.Results.List[0].Names) != 0 || c16Str(fn.Type.Results.List[0].Type) != "bool" || len(fn.Body.List) != 1 {
-					continue
-				}
-				if ret, ok := fn.Body.List[0].(*ast.ReturnStmt); ok && len(ret.Results) == 1 {
-					c16Preds[fn.Name.Name] = fn
+				if fn.Body != nil && fn.Type.TypeParams == nil {
+					c16Funcs[fn.Name.Name] = fn
 				}
 			}
 		}
 		for n, k := range seen {
-			if k > 1 { // declared in several files (build tags): which one is compiled is not decided here
-				delete(c16Preds, n)
+			if k > 1 {
+				delete(c16Funcs, n)
 			}
 		}
 	}
-	return c16Preds[name]
+	return c16Funcs
+}
+
+func c16FindPred(name string) *ast.FuncDecl {
+	fn := c16LoadFuncs()[name]
+	if fn == nil || fn.Type.Results == nil || len(fn.Type.Results.List) != 1 || len(fn.Type.Results.List[0].Names) != 0 ||
+		c16Str(fn.Type.Results.List[0].Type) != "bool" || len(fn.Body.List) != 1 {
+		return nil
+	}
+	if ret, ok := fn.Body.List[0].(*ast.ReturnStmt); ok && len(ret.Results) == 1 {
+		return fn
+	}
+	return nil
+}
+
+// c16PlainParams: the parameter names of fn, nil when one is variadic or unnamed
+func c16PlainParams(fn *ast.FuncDecl) []string {
+	params := []string{}
+	for _, fl := range fn.Type.Params.List {
+		if _, variadic := fl.Type.(*ast.Ellipsis); variadic || len(fl.Names) == 0 {
+			return nil
+		}
+		for _, n := range fl.Names {
+			params = append(params, n.Name)
+		}
+	}
+	return params
+}
+
+// ---- statement helpers: a piece of the function (a loop body, an arm of an if) that was moved into a private function
+// of the package which is handed the accumulator map (a Go map is a reference: what the helper writes, the caller sees) and
+// is called as   helper(acc, a, b)   (no result)   or   if err := helper(acc, a, b); err != nil { return nil, err }.
+// The body of the helper is translated in place, with its parameters bound to the translated arguments; `return` /
+// `return nil` continue behind the call, `return <error>` fails the function. Not inlined (shape not recognised): a
+// helper that returns from inside one of its own loops without an error, a helper that is not handed the accumulator.
+func (t *c16Tr) inlineStmtHelper(root *c16Root, call *ast.CallExpr, withErr bool, rest []ast.Stmt, k, ind string) (string, bool, error) {
+	id, ok := call.Fun.(*ast.Ident)
+	if !ok || call.Ellipsis.IsValid() || c16Repo == "" || t.accTy != "optmap" {
+		return "", false, nil
+	}
+	if _, local := t.vars[id.Name]; local {
+		return "", false, nil
+	}
+	fn := c16LoadFuncs()[id.Name]
+	if fn == nil {
+		return "", false, nil
+	}
+	nres := 0
+	if fn.Type.Results != nil {
+		for _, r := range fn.Type.Results.List {
+			if len(r.Names) > 0 {
+				return "", false, nil
+			}
+			nres++
+		}
+	}
+	if (withErr && (nres != 1 || c16Str(fn.Type.Results.List[0].Type) != "error")) || (!withErr && nres != 0) {
+		return "", false, nil
+	}
+	params := c16PlainParams(fn)
+	if params == nil || len(params) != len(call.Args) || c16PredDepth >= 3 {
+		return "", false, nil
+	}
+	accV := t.vars[t.acc].coq
+	in2 := ind + "  "
+	tc := t.clone()
+	tc.vars, tc.idx, tc.ignore = map[string]c16Var{}, map[string]string{}, map[string]bool{}
+	tc.acc = ""
+	var binds []c16Bind
+	for i, a := range call.Args {
+		if aid, ok := a.(*ast.Ident); ok && aid.Name == t.acc {
+			if tc.acc != "" || params[i] == "_" {
+				return "", true, t.errf(call, "helper %s is handed the accumulator twice", id.Name)
+			}
+			tc.acc = params[i]
+			tc.vars[params[i]] = t.vars[t.acc]
+			continue
+		}
+		b, err := t.expr(root, a)
+		if err != nil {
+			return "", true, err
+		}
+		if params[i] != "_" {
+			tc.vars[params[i]] = c16Var{b.s, b.ty}
+		}
+		binds = append(binds, b.binds...)
+	}
+	if tc.acc == "" {
+		return "", true, t.errf(call, "helper %s is not handed the accumulator %s", id.Name, t.acc)
+	}
+	kk, prefix := k, ""
+	if len(rest) > 0 {
+		kk = t.newVar(root, "k")
+		after, err := t.clone().stmts(root, rest, k, in2)
+		if err != nil {
+			return "", true, err
+		}
+		prefix = "let " + kk + " := (fun " + accV + " =>\n" + in2 + after + ") in\n" + ind
+	}
+	tc.fn = t.fn + " -> " + id.Name
+	tc.accInit, tc.helperRet, tc.helperErr, tc.helperLoop = true, kk, withErr, 0
+	c16PredDepth++
+	body, err := tc.stmts(root, fn.Body.List, kk, in2)
+	c16PredDepth--
+	if err != nil {
+		return "", true, err
+	}
+	return c16WrapBinds(binds, prefix+body, ind), true, nil
 }
 
 // inlinePred: isPred = the call is to a predicate helper (then the result or the error is final)
@@ -428,14 +538,9 @@ func (t *c16Tr) inlinePred(root *c16Root, call *ast.CallExpr) (c16Expr, bool, er
 	if fn == nil {
 		return c16Expr{}, false, nil
 	}
-	var params []string
-	for _, fl := range fn.Type.Params.List {
-		if _, variadic := fl.Type.(*ast.Ellipsis); variadic || len(fl.Names) == 0 {
-			return c16Expr{}, false, nil
-		}
-		for _, n := range fl.Names {
-			params = append(params, n.Name)
-		}
+	params := c16PlainParams(fn)
+	if params == nil {
+		return c16Expr{}, false, nil
 	}
 	if len(params) != len(call.Args) || c16PredDepth >= 3 {
 		return c16Expr{}, false, nil
@@ -460,6 +565,89 @@ func (t *c16Tr) inlinePred(root *c16Root, call *ast.CallExpr) (c16Expr, bool, er
 		return c16Expr{}, true, t.errf(call, "condition %s: the body of the helper %s is outside the translated fragment", c16Str(call), id.Name)
 	}
 	return c16Expr{s, "bool", binds}, true, nil
+}
+
+// c16SwitchToIf rewrites an expression switch without init statement as the equivalent if / else-if chain (nil:
+// no clause). A clause body with an unlabelled break that would leave the switch, or a fallthrough, is not rewritten;
+// a tag must be free of calls other than len, of index and of slice expressions (it is evaluated once per comparison).
+func c16SwitchToIf(x *ast.SwitchStmt) (ast.Stmt, error) {
+	if x.Init != nil {
+		return nil, fmt.Errorf("switch with an init statement is outside the translated fragment")
+	}
+	if x.Tag != nil {
+		simple := true
+		ast.Inspect(x.Tag, func(n ast.Node) bool {
+			switch c := n.(type) {
+			case *ast.CallExpr:
+				if c16Str(c.Fun) != "len" {
+					simple = false
+				}
+			case *ast.IndexExpr, *ast.SliceExpr:
+				simple = false
+			}
+			return simple
+		})
+		if !simple {
+			return nil, fmt.Errorf("switch tag %s is outside the translated fragment", c16Str(x.Tag))
+		}
+	}
+	var leaves func(n ast.Node) bool // an unlabelled break / fallthrough that belongs to this switch
+	leaves = func(n ast.Node) bool {
+		found := false
+		ast.Inspect(n, func(m ast.Node) bool {
+			switch b := m.(type) {
+			case *ast.ForStmt, *ast.RangeStmt, *ast.SwitchStmt, *ast.TypeSwitchStmt, *ast.SelectStmt, *ast.FuncLit:
+				return m == n
+			case *ast.BranchStmt:
+				if b.Tok == token.FALLTHROUGH || (b.Tok == token.BREAK && b.Label == nil) {
+					found = true
+				}
+			}
+			return !found
+		})
+		return found
+	}
+	var clauses []*ast.CaseClause
+	var deflt *ast.CaseClause
+	for _, c := range x.Body.List {
+		cc, ok := c.(*ast.CaseClause)
+		if !ok {
+			return nil, fmt.Errorf("switch clause of another kind")
+		}
+		for _, st := range cc.Body {
+			if leaves(st) {
+				return nil, fmt.Errorf("switch clause with break / fallthrough is outside the translated fragment")
+			}
+		}
+		if cc.List == nil {
+			deflt = cc
+		} else {
+			clauses = append(clauses, cc)
+		}
+	}
+	var chain ast.Stmt
+	if deflt != nil {
+		chain = &ast.BlockStmt{List: deflt.Body}
+	}
+	for i := len(clauses) - 1; i >= 0; i-- {
+		var cond ast.Expr
+		for _, e := range clauses[i].List {
+			c := e
+			if x.Tag != nil {
+				c = &ast.BinaryExpr{X: x.Tag, Op: token.EQL, Y: e}
+			}
+			if cond == nil {
+				cond = c
+			} else {
+				cond = &ast.BinaryExpr{X: cond, Op: token.LOR, Y: &ast.ParenExpr{X: c}}
+			}
+		}
+		chain = &ast.IfStmt{Cond: cond, Body: &ast.BlockStmt{List: clauses[i].Body}, Else: chain}
+	}
+	if _, onlyDefault := chain.(*ast.BlockStmt); onlyDefault && chain != nil {
+		return nil, fmt.Errorf("switch with a default clause only")
+	}
+	return chain, nil
 }
 
 func c16WrapBinds(binds []c16Bind, body, ind string) string {
@@ -673,6 +861,31 @@ func (t *c16Tr) stmts(root *c16Root, l []ast.Stmt, k string, ind string) (string
 	switch x := l[0].(type) {
 	case *ast.EmptyStmt:
 		return t.stmts(root, rest, k, ind)
+	case *ast.BlockStmt:
+		// a bare block: its statements, provided it declares nothing that hides a variable of the fragment
+		for _, st := range x.List {
+			if as, ok := st.(*ast.AssignStmt); ok && as.Tok == token.DEFINE {
+				for _, lhs := range as.Lhs {
+					if _, hides := t.vars[c16Str(lhs)]; hides {
+						return "", t.errf(x, "a block that declares %s again is outside the translated fragment", c16Str(lhs))
+					}
+				}
+			}
+			if _, ok := st.(*ast.DeclStmt); ok {
+				return "", t.errf(x, "a block with a declaration is outside the translated fragment")
+			}
+		}
+		return t.stmts(root, append(append([]ast.Stmt{}, x.List...), rest...), k, ind)
+	case *ast.SwitchStmt:
+		// switch { case a: … case b, c: … default: … } and switch tag { case v: … } are the if / else-if chain
+		chain, err := c16SwitchToIf(x)
+		if err != nil {
+			return "", t.errf(x, "%v", err)
+		}
+		if chain == nil {
+			return t.stmts(root, rest, k, ind)
+		}
+		return t.stmts(root, append([]ast.Stmt{chain}, rest...), k, ind)
 	case *ast.BranchStmt:
 		if x.Label != nil {
 			return "", t.errf(x, "labelled %s", x.Tok)
@@ -684,7 +897,31 @@ func (t *c16Tr) stmts(root *c16Root, l []ast.Stmt, k string, ind string) (string
 			return "(Break " + accV + ")", nil
 		}
 		return "", t.errf(x, "%s statement", x.Tok)
+	case *ast.ExprStmt:
+		if call, ok := x.X.(*ast.CallExpr); ok {
+			if s, isHelper, err := t.inlineStmtHelper(root, call, false, rest, k, ind); isHelper {
+				return s, err
+			}
+		}
+		return "", t.errf(x, "statement %s is outside the translated fragment", c16Str(x.X))
 	case *ast.ReturnStmt:
+		if t.helperRet != "" {
+			// inside an inlined statement helper
+			switch {
+			case !t.helperErr && len(x.Results) == 0, t.helperErr && len(x.Results) == 1 && c16IsNil(x.Results[0]):
+				if t.helperLoop > 0 {
+					return "", t.errf(x, "a helper that returns from inside one of its loops is outside the translated fragment")
+				}
+				return "(" + t.helperRet + " " + accV + ")", nil
+			case t.helperErr && len(x.Results) == 1:
+				code, err := t.errCode(x.Results[0])
+				if err != nil {
+					return "", err
+				}
+				return "(Fail " + code + ")", nil
+			}
+			return "", t.errf(x, "return statement of a helper outside the translated fragment")
+		}
 		switch len(x.Results) {
 		case 2:
 			if c16IsNil(x.Results[1]) {
@@ -877,6 +1114,7 @@ func (t *c16Tr) stmts(root *c16Root, l []ast.Stmt, k string, ind string) (string
 			return "", t.errf(x, "range over a partial expression")
 		}
 		bt := t.clone()
+		bt.helperLoop++
 		name := func(e ast.Expr) string {
 			if e == nil {
 				return "_"
@@ -936,6 +1174,18 @@ func (t *c16Tr) stmts(root *c16Root, l []ast.Stmt, k string, ind string) (string
 		if t.ignorable(x) {
 			root.skipped = append(root.skipped, "if "+c16Str(x.Cond)+" { … }")
 			return t.stmts(root, rest, k, ind)
+		}
+		// if err := helper(acc, …); err != nil { return nil, err }
+		if as, ok := x.Init.(*ast.AssignStmt); ok && len(as.Lhs) == 1 && len(as.Rhs) == 1 && x.Else == nil && t.helperRet == "" {
+			if call, ok := as.Rhs[0].(*ast.CallExpr); ok && !call.Ellipsis.IsValid() {
+				errName := c16Str(as.Lhs[0])
+				if bin, ok := x.Cond.(*ast.BinaryExpr); ok && bin.Op == token.NEQ && c16Str(bin.X) == errName && c16IsNil(bin.Y) &&
+					len(x.Body.List) == 1 && c16IsErrWrapReturn(x.Body.List[0], errName) {
+					if s, isHelper, err := t.inlineStmtHelper(root, call, true, rest, k, ind); isHelper {
+						return s, err
+					}
+				}
+			}
 		}
 		// if err = c.action.checkOption(acc[k]...); err != nil { return nil, <err, wrapped or not> }
 		if as, ok := x.Init.(*ast.AssignStmt); ok && len(as.Lhs) == 1 && len(as.Rhs) == 1 && x.Else == nil {
@@ -1124,9 +1374,10 @@ func c16SkippedComment(root *c16Root) string {
 // ---------------------------------------------------------------------------------------------- deepCopy
 
 // Option.deepCopy as a table: which field of the returned Option is a copy of which field of the receiver.
-//   nX := make([]T, len(o.F)); copy(nX, o.F)                                   nX = o.F (a fresh array)
-//   nX := make([]T, len(o.F)); for i, p := range o.F { q := *p; nX[i] = &q }   nX = o.F element-wise (fresh cells)
-//   return Option{options: …, handler: …, paths: …, <scalar>: o.<scalar>}
+//
+//	nX := make([]T, len(o.F)); copy(nX, o.F)                                   nX = o.F (a fresh array)
+//	nX := make([]T, len(o.F)); for i, p := range o.F { q := *p; nX[i] = &q }   nX = o.F element-wise (fresh cells)
+//	return Option{options: …, handler: …, paths: …, <scalar>: o.<scalar>}
 func c16DeepCopy(f *ast.File) (string, error) {
 	fn := c16Method(f, "Option", "deepCopy")
 	if fn == nil || fn.Body == nil || len(fn.Recv.List[0].Names) != 1 {
@@ -1321,7 +1572,9 @@ func c16ExtractCallbacks(repo string) (string, string, error) {
 
 // Option.DesignateNodeWithPath on the level of slices: the heap h and the header of o.paths are threaded
 // through the statements
-//   x := make([]*NodePath, l, c)     x = append(x, y...)     o.paths = append(o.paths, y...)     o.paths = x     return o
+//
+//	x := make([]*NodePath, l, c)     x = append(x, y...)     o.paths = append(o.paths, y...)     o.paths = x     return o
+//
 // y ::= o.paths | the variadic parameter | a local slice; l, c ::= 0 | len(y) | l + c
 func c16ExtractDesignate(repo string) (string, string, error) {
 	fset := token.NewFileSet()
@@ -1894,7 +2147,8 @@ func c16CoqStr(s string) string { return `"` + strings.ReplaceAll(s, `"`, `""`) 
 
 // runner.extractOption (distribution + validation of what is handed to every nested graph), statement by
 // statement; the checkOption closure that toComposableRunnable installs for a graph used as a node:
-//   tos, err := convertOption[Option](opts...); if err != nil { return err }; _, err = r.extractOption(tos...); return err
+//
+//	tos, err := convertOption[Option](opts...); if err != nil { return err }; _, err = r.extractOption(tos...); return err
 func c16ExtractValidate(repo string) (string, string, error) {
 	c16SetRepo(repo)
 	fset := token.NewFileSet()
